@@ -366,17 +366,47 @@ fn drain_casts(op: usize, out: &mut Vec<CastEv>, enabled: bool) {
     }
 }
 
+thread_local! {
+    /// When set, every frame is copied into ONE caller-side buffer before the call (as a capture
+    /// loop that reuses its buffer does): consecutive frames of equal length then share address
+    /// and length, which must not matter to the library.
+    static REUSE_BUFFER: std::cell::Cell<bool> = const { std::cell::Cell::new(false) };
+    static SCRATCH: std::cell::RefCell<Vec<u8>> = std::cell::RefCell::new(Vec::with_capacity(1 << 20));
+}
+
+/// Run `f` with the caller-side buffer reuse switched on for this thread.
+pub fn with_reused_buffer<R>(f: impl FnOnce() -> R) -> R {
+    let prev = REUSE_BUFFER.with(|c| c.replace(true));
+    let r = f();
+    REUSE_BUFFER.with(|c| c.set(prev));
+    r
+}
+
 /// Apply one operation to a (possibly already consumed) muxer.
 pub fn apply_op<W: Write>(mux: &mut Option<Muxer<W>>, op: &Op, rd: bool) -> Res {
+    if REUSE_BUFFER.with(|c| c.get()) {
+        if let Some(d) = op.data() {
+            return SCRATCH.with(|s| {
+                let mut s = s.borrow_mut();
+                s.clear();
+                s.extend_from_slice(d);
+                apply_op_with(mux, op, rd, Some(&s[..]))
+            });
+        }
+    }
+    apply_op_with(mux, op, rd, None)
+}
+
+fn apply_op_with<W: Write>(mux: &mut Option<Muxer<W>>, op: &Op, rd: bool, buf: Option<&[u8]>) -> Res {
     let Some(m) = mux.as_mut() else {
         return Res::Skipped;
     };
     match op {
-        Op::WriteVideo { pts, data, key } => res_unit(guard(|| rr(rd, m.write_video(bf(*pts), data, *key)))),
-        Op::WriteVideoDts { pts, dts, data, key } => res_unit(guard(|| rr(rd, m.write_video_with_dts(bf(*pts), bf(*dts), data, *key)))),
-        Op::WriteAudio { pts, data } => res_unit(guard(|| rr(rd, m.write_audio(bf(*pts), data)))),
-        Op::EncodeVideo { data, dur_ms } => res_unit(guard(|| rr(rd, m.encode_video(data, *dur_ms)))),
-        Op::EncodeAudio { data, samples } => res_unit(guard(|| rr(rd, m.encode_audio(data, *samples)))),
+        Op::WriteVideo { pts, data, key } => res_unit(guard(|| rr(rd, m.write_video(bf(*pts), buf.unwrap_or(data), *key)))),
+        Op::WriteVideoDts { pts, dts, data, key } => res_unit(guard(|| rr(rd, m.write_video_with_dts(bf(*pts), bf(*dts), buf.unwrap_or(data), *key)))),
+        Op::WriteAudio { pts, data } => res_unit(guard(|| rr(rd, m.write_audio(bf(*pts), buf.unwrap_or(data))))),
+        Op::EncodeVideo { data, dur_ms } => res_unit(guard(|| rr(rd, m.encode_video(buf.unwrap_or(data), *dur_ms)))),
+        Op::EncodeAudio { data, samples } => res_unit(guard(|| rr(rd, m.encode_audio(buf.unwrap_or(data), *samples)))),
         Op::Finish(FinishKind::InPlace) => res_unit(guard(|| rr(rd, m.finish_in_place()))),
         Op::Finish(FinishKind::InPlaceStats) => res_stats(guard(|| rr(rd, m.finish_in_place_with_stats()))),
         Op::Finish(k) => {
